@@ -1,7 +1,7 @@
 (* C06 -- property theorems only.  Ring regime: every statement holds over EVERY commutative ring
    (carrier F with the operations of an `fops` record satisfying ring_theory; instances: Z, R),
    for every order / shape / rank / weights / factors, with no size bound. *)
-From Coq Require Import List Arith ZArith Reals Bool Ring.
+From Coq Require Import List Arith ZArith Reals Bool Ring Lia.
 From TLV Require Import Base.Shape Base.PyList Base.Tensor Base.BigSum Base.Ops Model.Errors
      Proofs.ErrorsProofs Proofs.ErrorsSkeleton.
 Import ListNotations.
@@ -98,13 +98,13 @@ Example C06_ring_Z : ring_theory (f0 Zops) (f1 Zops) (fadd Zops) (fmul Zops) (fs
 Proof. exact Zth. Qed.
 Example C06_ring_R : ring_theory (f0 Rops) (f1 Rops) (fadd Rops) (fmul Rops) (fsub Rops) (fopp Rops) (@eq R).
 Proof. exact RTheory. Qed.
-(* a 2x3x2 integer tensor, rank 2, non-unit weights: shortcut (MTTKRP of the last mode) = residual from scratch = 2173 *)
+(* a 2x3x2 integer tensor, rank 2, non-unit weights: shortcut (MTTKRP of the last mode) = residual from scratch = 296 *)
 Example C06_shortcut_nonvacuous :
   let X := mk [2;3;2] [1;2;3;4;5;6;7;8;9;10;11;12]%Z in
   let fs := [mk [2;2] [1;0;1;1]%Z; mk [3;2] [1;2;0;1;1;1]%Z; mk [2;2] [1;1;2;0]%Z] in
   let w := Some [2;3]%Z in
   fst (err_shortcut Zops X 2 w fs 2) = fst (err_cp_true Zops X 2 w fs None None) /\
-  fst (err_shortcut Zops X 2 w fs 2) = 1011%Z /\ fst (err_shortcut Zops X 2 w fs 0) = 1011%Z.
+  fst (err_shortcut Zops X 2 w fs 2) = 296%Z /\ fst (err_shortcut Zops X 2 w fs 0) = 296%Z.
 Proof. vm_compute. repeat split. Qed.
 (* orthonormal integer factors (signed permutation matrices) satisfy the HOOI hypotheses *)
 Example C06_hooi_nonvacuous :
